@@ -53,7 +53,7 @@ def demo(wt, path):
 
 
 def cmd_import(args):
-    sid = "%s-%s" % (args.prop, args.n)
+    sid = "%s-%s" % (args.prop, args.as_n or args.n)
     src = args.src
     patch = os.path.join(src, "patch%s.diff" % args.n)
     dem = os.path.join(src, "demo%s.py" % args.n)
@@ -156,6 +156,7 @@ def main():
     i.add_argument("prop")
     i.add_argument("n")
     i.add_argument("src")
+    i.add_argument("--as-n", default=None)
     r = sub.add_parser("run")
     r.add_argument("id")
     r.add_argument("--props", default=None)
